@@ -196,6 +196,14 @@ def run_framing(msgs, eof, sched, cuts=None, other=None, greet=False):
                     if c > p:
                         sk.sendall(stream[p:c])
                         p = c
+            if greet:
+                # look at (but never read) what the other end said, so that it is in this end's
+                # receive buffer when the connection is closed: the close is then abortive
+                import socket as _so
+                try:
+                    sk.recv(1, _so.MSG_PEEK)
+                except OSError:
+                    pass
             sk.close()
 
         sim.spawn(receiver, 'receiver' + suffix)
